@@ -415,7 +415,11 @@ def big_validate(ctx, rng):
               (a in meta['formulas'] or a.startswith('Summary!'))}
     path = os.path.join(ctx.tmpdir, 'c12big.xlsx')
     for how in ('sheet', 'outputs', 'all'):
-        cell = rng.choice(sorted(block))
+        numeric = [a for a in sorted(block) if isinstance(stored.get(a), (int, float)) and not isinstance(stored.get(a), bool)]
+        if not numeric:
+            ctx.count('big_workbook_without_a_numeric_formula_in_the_block')
+            return
+        cell = rng.choice(numeric)
         new = stored[cell] + 1000
         wb.write_xlsx(spec, path, dict(stored, **{cell: new}))
         comp = ExcelCompiler(filename=path)
